@@ -23,7 +23,7 @@ ADV = ['1', '11', '111', 'A', 'AA', 'a b', '0', '00', 'x_internal_y', 'n (m)', '
 
 
 def scenarios(seed, tier):
-    n = 80 if tier == 'quick' else 1000
+    n = 200 if tier == 'quick' else 2000
     rnd = random.Random(seed * 7919 + 9)
     for i in range(n):
         r2 = random.Random(rnd.getrandbits(48))
